@@ -15,7 +15,7 @@ func init() {
 			"(close) the non-deleting exit paths of Topic and Channel stop the pump / disconnect consumers, flush and close the backend and can never reach Empty or a backend Delete; " +
 			"(flush) every container of Channel/Topic that can hold a message is written to the backend by flush; (meta) what GetMetadata writes is what LoadMetadata reads, pause flags come from the object itself and are re-applied before the pump is started; " +
 			"(start) the topic pump reads no queue before Start().",
-		NotDecided: "byte-identity of what go-diskqueue reads back; that consumers actually receive the messages after restart; the custody windows racing shutdown (REQ/TOUCH/pump/publish vs exit) — see DESIGN.md F10.",
+		NotDecided:  "byte-identity of what go-diskqueue reads back; that consumers actually receive the messages after restart; the custody windows racing shutdown (REQ/TOUCH/pump/publish vs exit) — see DESIGN.md F10.",
 		Assumptions: []string{"go-diskqueue Close() persists its own metadata and Put()s that returned nil"},
 	}
 	reg("C05.exit", "PATH", "NSQD.Exit: listeners closed -> PersistMetadata -> every topic Close() -> close(exitChan) -> waitGroup.Wait -> dirlock released", 2, c05exit)
